@@ -145,7 +145,30 @@ def _install_open_patch(ctl):
         shutil._HAS_FCOPYFILE = False
 
 
-def run(setup, op, root, plan=None, include_reads=False, deterministic_uuid=True):
+def _install_stat_patch(ctl):
+    """os.stat / os.lstat raise no audit event; count them as (read) steps so that they can be made to fail.
+    os.path.isfile / isdir / exists / islink go through these module attributes."""
+    real = {"stat": os.stat, "lstat": os.lstat}
+
+    def make(name):
+        def patched(path, *a, **kw):
+            if ctl.armed and isinstance(path, (str, bytes, os.PathLike)):
+                try:
+                    ap = os.path.normpath(os.path.join(os.getcwd(), os.fsdecode(os.fspath(path))))
+                except Exception:
+                    ap = None
+                if ap is not None and (ap == ctl.root or ap.startswith(ctl.root + os.sep)):
+                    k = len(ctl.steps)
+                    ctl.steps.append({"k": k, "ev": f"{name}({os.path.relpath(ap, ctl.root)})", "mut": False, "kind": "stat"})
+                    ctl._maybe_fault(k, False, None, None)
+            return real[name](path, *a, **kw)
+        return patched
+
+    os.stat = make("stat")
+    os.lstat = make("lstat")
+
+
+def run(setup, op, root, plan=None, include_reads=False, deterministic_uuid=True, include_stats=False):
     """Fork; child: setup(root); arm; op(root). Returns dict(status, outcome, steps, error)."""
     rfd, wfd = os.pipe()
     sys.stdout.flush()
@@ -169,6 +192,8 @@ def run(setup, op, root, plan=None, include_reads=False, deterministic_uuid=True
                 uuid.uuid4 = fake_uuid4
             _install_open_patch(ctl)
             state = setup(root)
+            if include_stats:
+                _install_stat_patch(ctl)
             sess = fsmon.Session([root], on_step=ctl.on_event)
             result = {"outcome": None, "error": None}
             with sess:
